@@ -79,7 +79,7 @@ func (sc pwScenario) prog() string {
 
 // ---- scripted wrapped writers ------------------------------------------------------------------
 
-var errScripted = errors.New("scripted failure")
+var pwErrScripted = errors.New("scripted failure")
 
 type pwLog struct {
 	mu          sync.Mutex
@@ -95,19 +95,19 @@ func (l *pwLog) violate(kind, detail string) {
 	l.viol = append(l.viol, [2]string{kind, detail})
 }
 
-type scriptW struct {
+type pwScriptW struct {
 	log    *pwLog
 	calls  []pwCall
 	i      int
 	method []string
 }
 
-func (w *scriptW) answer(method string, length int) (int, error) {
+func (w *pwScriptW) answer(method string, length int) (int, error) {
 	w.log.mu.Lock()
 	defer w.log.mu.Unlock()
 	if w.i >= len(w.calls) {
 		w.log.violate("harness", "wrapped writer called more often than scripted")
-		return 0, errScripted
+		return 0, pwErrScripted
 	}
 	c := w.calls[w.i]
 	w.i++
@@ -121,20 +121,20 @@ func (w *scriptW) answer(method string, length int) (int, error) {
 	}
 	w.log.wrappedSums = append(w.log.wrappedSums, prev+c.N)
 	if c.Err {
-		return c.N, errScripted
+		return c.N, pwErrScripted
 	}
 	return c.N, nil
 }
 
-func (w *scriptW) Write(p []byte) (int, error) { return w.answer("Write", len(p)) }
+func (w *pwScriptW) Write(p []byte) (int, error) { return w.answer("Write", len(p)) }
 
-type scriptSW struct{ scriptW }
+type pwScriptSW struct{ pwScriptW }
 
-func (w *scriptSW) WriteString(s string) (int, error) { return w.answer("WriteString", len(s)) }
+func (w *pwScriptSW) WriteString(s string) (int, error) { return w.answer("WriteString", len(s)) }
 
 var (
-	_ io.Writer       = (*scriptW)(nil)
-	_ io.StringWriter = (*scriptSW)(nil)
+	_ io.Writer       = (*pwScriptW)(nil)
+	_ io.StringWriter = (*pwScriptSW)(nil)
 )
 
 // ---- one run -----------------------------------------------------------------------------------
@@ -152,9 +152,9 @@ func runPwScenario(sc pwScenario) pwResult {
 	r := NewRng(sc.Seed)
 	log := &pwLog{}
 	var wrapped io.Writer
-	base := scriptW{log: log, calls: sc.Calls}
+	base := pwScriptW{log: log, calls: sc.Calls}
 	if sc.SW {
-		wrapped = &scriptSW{base}
+		wrapped = &pwScriptSW{base}
 	} else {
 		wrapped = &base
 	}
@@ -457,14 +457,14 @@ func pwControls(sc pwScenario, tr []string, r *Rng) [][]string {
 	return out
 }
 
-func traceStr(tr []string) string {
+func pwTraceStr(tr []string) string {
 	if len(tr) == 0 {
 		return "-"
 	}
 	return strings.Join(tr, ",")
 }
 
-func intsStr(v []int) string {
+func pwIntsStr(v []int) string {
 	if len(v) == 0 {
 		return "-"
 	}
@@ -477,7 +477,7 @@ func intsStr(v []int) string {
 
 // ---- generator ---------------------------------------------------------------------------------
 
-func genPwCall(r *Rng) pwCall {
+func pwGenCall(r *Rng) pwCall {
 	c := pwCall{Str: r.Chance(40)}
 	switch r.Intn(10) {
 	case 0:
@@ -560,7 +560,7 @@ func runProgress(cfg Cfg) {
 		}
 		calls := make([]pwCall, nCalls)
 		for j := range calls {
-			calls[j] = genPwCall(r)
+			calls[j] = pwGenCall(r)
 		}
 		cl := r.Chance(70)
 		scenarios = append(scenarios, pwScenario{SW: r.Bool(), Calls: calls, Close: cl,
@@ -593,19 +593,19 @@ func runProgress(cfg Cfg) {
 		}
 		prog := sc.prog()
 		if res.Complete {
-			s.Line("accept "+prog+" "+traceStr(res.Trace), "accept")
+			s.Line("accept "+prog+" "+pwTraceStr(res.Trace), "accept")
 			s.Traces++
 			if idx%4 == 0 {
 				for _, t := range pwControls(sc, res.Trace, rng) {
-					s.Line("control "+prog+" "+traceStr(t), "reject")
+					s.Line("control "+prog+" "+pwTraceStr(t), "reject")
 					s.Count("control")
 				}
 			}
 		} else {
-			s.Line("prefix "+prog+" "+traceStr(res.Trace), "accept")
+			s.Line("prefix "+prog+" "+pwTraceStr(res.Trace), "accept")
 		}
 		if len(res.Sizes) == len(sc.Calls) {
-			s.Line("size "+prog, intsStr(res.Sizes))
+			s.Line("size "+prog, pwIntsStr(res.Sizes))
 		}
 		// statistics
 		nr := len(res.Recv)
@@ -627,10 +627,10 @@ func runProgress(cfg Cfg) {
 			s.Count("trace.mixed")
 		}
 		if res.Complete && ((nr > 0 && nr < len(sc.Calls)) || hasShort) {
-			s.Nontrivial(prog + "|" + sc.Consumer + "|" + traceStr(res.Trace))
+			s.Nontrivial(prog + "|" + sc.Consumer + "|" + pwTraceStr(res.Trace))
 		}
 		if idx%97 == 0 {
-			s.Sample(map[string]any{"prog": prog, "consumer": sc.Consumer, "trace": traceStr(res.Trace), "sizes": res.Sizes})
+			s.Sample(map[string]any{"prog": prog, "consumer": sc.Consumer, "trace": pwTraceStr(res.Trace), "sizes": res.Sizes})
 		}
 		for _, v := range res.Viol {
 			replay := map[string]any{"scenario": sc, "trace": res.Trace, "sizes": res.Sizes}
